@@ -79,6 +79,12 @@ end Casbin
 
 namespace Casbin
 
+def splitLines (s : List Char) : List (List Char) :=
+  let rec go (cur : List Char) : List Char → List (List Char)
+    | [] => [cur.reverse]
+    | c :: cs => if c = '\n' then cur.reverse :: go [] cs else go (c :: cur) cs
+  go [] s
+
 def isWordChar (c : Char) : Bool := c.isAlphanum || c = '_'
 
 /-- util.rs:21-23 `escape_assertion`: `\b(r\d*|p\d*)\.` ↦ `${1}_`.
